@@ -145,6 +145,10 @@ func VerifC11Map() {
 	n := zz.Param("n")
 	const q = 480
 	tempi := []int64{500000, 250000, 1000000, 333333}
+	if zz.Param("tiny") == 1 {
+		// ticks shorter than half a microsecond: truncation against rounding shows in the order of the results
+		tempi = []int64{100, 1, 500000, 239}
+	}
 	s := &SMF{TimeFormat: MetricTicks(q)}
 	ticks := make([]int64, n)
 	uss := make([]int64, n)
@@ -188,9 +192,12 @@ func VerifC11Map() {
 	scaled += (t1 - prevTick) * prevUs
 	zz.Assert(q*(got-segs-1) <= scaled, "map:not-above-the-exact-integral")
 	zz.Assert(scaled <= q*(got+segs+1), "map:not-below-the-exact-integral")
-	if zz.Param("monotone") == 1 {
+	if zz.Param("monotone") >= 1 {
 		// monotone: a later tick is never earlier in time
-		t2 := t1 + int64(zz.U16("later"))
+		t2 := t1 + 1 // adjacent ticks (monotone=2): non-decreasing from every tick to the next is non-decreasing overall
+		if zz.Param("monotone") == 1 {
+			t2 = t1 + int64(zz.U16("later"))
+		}
 		got2 := s.TimeAt(t2)
 		zz.Assert(got2 >= got, "map:monotone")
 	}
